@@ -34,11 +34,14 @@ def deep_snapshot(w, style_names):
             rec.append(n.data)
         snap['node %d' % i] = rec
     if w.doc is not None:
-        def walk(n):
+        def walk(n, depth):
+            if depth > 60:
+                return ['TOO-DEEP', id(n)]         # a cyclic "tree" (only a broken library builds one)
             if n.nodeType == 1:
-                return ['E', id(n), n.qname, sorted((k, v) for k, v in n.attributes.items()), [walk(c) for c in n.childNodes]]
+                return ['E', id(n), n.qname, sorted((k, v) for k, v in n.attributes.items()),
+                        [walk(c, depth + 1) for c in n.childNodes]]
             return ['T', id(n), n.nodeType, n.data]
-        snap['tree'] = walk(w.doc.topnode)
+        snap['tree'] = walk(w.doc.topnode, 0)
         for f in QUERY_FACTORIES:
             snap['byType ' + f] = [id(e) for e in w.doc.getElementsByType(D.factory(f))]
         for nm in sorted(style_names):
@@ -261,6 +264,15 @@ class Gen(object):
 
 
 # ---------------------------------------------------------------------------------------------
+ENTRY = {'adde': 'addElement', 'addt': 'addText', 'addc': 'addCDATA', 'seta': 'setAttribute', 'setns': 'setAttrNS',
+         'rma': 'removeAttribute', 'insb': 'insertBefore', 'rm': 'removeChild', 'append': 'appendChild', 'new': 'new'}
+def entry(op):
+    """the entry point of a call (part of the finding signature)"""
+    if op[0] == 'ctor':
+        return 'factory+parent' if op[4] is not None else 'factory'
+    return ENTRY[op[0]]
+
+
 class History(object):
     """one history on a live world: ops are chosen against the current state, the oracle brackets every call"""
     def __init__(self, chk, attached, rng):
@@ -291,7 +303,7 @@ class History(object):
                     del after[k]
             d = first_difference(before, after)
             if d is not None and self.failed is None:
-                self.failed = ('changed-by-refused:' + (label or op[0]), len(self.ops) - 1,
+                self.failed = ('changed-by-refused:' + entry(op), len(self.ops) - 1,
                                '%s raised %s but %r changed: %r -> %r' % (op, ans, d, before.get(d), after.get(d)))
             if op[0] == 'ctor' and op[1] in w.nodes:
                 obj = w.nodes[op[1]]
@@ -300,7 +312,7 @@ class History(object):
                     self.failed = ('refused-element-found', len(self.ops) - 1,
                                    '%s raised %s but the refused element is reachable from the document' % (op, ans))
             if ans.startswith('err Unexpected') and self.failed is None:
-                self.failed = ('unexpected-exception:' + (label or op[0]), len(self.ops) - 1, '%s raised %s' % (op, ans))
+                self.failed = ('unexpected-exception:' + entry(op), len(self.ops) - 1, '%s raised %s' % (op, ans))
         return ans
 
     def correspond(self, drv):
@@ -387,6 +399,8 @@ def run(chk, replay=None):
             h.do(op, bracket=False)
         n = rng.randint(3, 14)
         for _ in range(n):
+            if h.failed:
+                break
             if rng.random() < 0.4:
                 cands = h.g.bad_ops()
                 if cands:
